@@ -68,6 +68,8 @@ class GeneralizedPerspectiveTransformation(darsia.BaseTransformation):
 
         """
         assert len(parameters) <= len(self.default_parameters)
+        # Mark transformation as modified (invalidates cached warps)
+        self.parameter_version = getattr(self, "parameter_version", 0) + 1
         self.A = parameters[:4].reshape((2, 2))
         self.b = parameters[4:6]
         self.c = parameters[6:8]
